@@ -201,13 +201,14 @@ PROPERTIES = {
              'exhaustiveness: that the error IS reported) is not covered',
   },
   'C08': {
-    'verus': ['paren', 'strlit', 'lexer'],
+    'verus': ['paren', 'strlit', 'ifchain', 'lexer'],
     'verus_only': {'lexer': ['WrappedLogosLexer::lex_str_lit_opt']},
     'verus_route': {'lexer': 'literals'},
     'kani': ['prec'],
     'level': 'proof',
     'scope': 'kernels only: the precedence table used by the formatter against the grammar\'s binding levels; the '
-             'parenthesis decision for the operands of binary and unary expressions; string literals (lexer token shape, parser '
+             'parenthesis decision for the operands of binary and unary expressions; expression statements keep their `;`; the else-if chain '
+             'stops at the first else-branch that is a block; string literals (lexer token shape, parser '
              'unescaping, printer escaping: the printed literal is the source token); every other construct, the layout engine, '
              'import sorting and re-parsing as such are not covered',
   },
@@ -277,6 +278,7 @@ STANDING_ASSUMPTIONS = {
   'errgate': ['Verus/Z3; vstd specification of std BTreeSet (new / insert / is_empty); the derived Ord of CompileTimeError is assumed to '
               'be a total order (obeys_cmp); BTreeSet::extend = union (R3); Location, ErrorDetail opaque; everything compile_sources does '
               'around the gate is outside the block (R14)'],
+  'ifchain': ['Verus/Z3; the if-else node is reduced to the fields the function reads (R6/R7); Box::as_ref written as a dereference (R9)'],
   'strlit': ['Verus/Z3; std str::replace for the two literal patterns is modelled by unesc / esc on character sequences (documented '
              'behaviour: leftmost non-overlapping occurrences); chars().collect_vec() and iter().collect::<String>() keep the characters; '
              'documents are abstracted to how they were built; the lexer clause is proved on bytes, the parser / printer clauses on chars '
